@@ -401,6 +401,7 @@ class Scenario:
         if name == "badlen":
             # a 20-byte header announcing a message length of 5: the connection can only be closed
             s.nreq -= 1
+            self.nw.world.obs("env_garbage", s.fs.sid)      # ground truth: from this instant on the connection is lost, whoever notices
             return rc.enc_header(1, 5, R, env.CMD_DWR, 0, hbh, e2e)
         if name == "dwr":
             d = env.dwr(host=host, hbh=hbh, e2e=e2e)
